@@ -527,6 +527,28 @@ pub fn run(c: &mut Ctx) {
         }
     }
 
+    // ---- 2b. the end of the representable range: the UTC reading must stay inside it ------------------------
+    for _ in 0..c.n(400, 4000) {
+        let (h, mi) = (c.rng.range(0, 23), c.rng.range(0, 59));
+        let (oh, om) = (c.rng.range(0, 23), c.rng.range(0, 59));
+        let neg = c.rng.chance(1, 2);
+        let (y, m, d) = *c.rng.pick(&[(262142i64, 12i64, 31i64), (262142, 12, 30), (262142, 1, 1), (262143, 1, 1), (0, 1, 1)]);
+        let off = (oh * 3600 + om * 60) * if neg { -1 } else { 1 };
+        let text = format!("{} {} {} {:02}:{:02} {}{:02}{:02}", d, MONTHS[(m - 1) as usize], format!("{:04}", y), h, mi, if neg { '-' } else { '+' }, oh, om);
+        let t = (day_num(y, m, d) - 719163) * 86400 + h * 3600 + mi * 60 - off;
+        let want = if y > MAX_YEAR as i64 {
+            Want::Err("date does not exist / year out of range")
+        } else if t < ts_min() || t > ts_max() {
+            Want::Err("instant outside the representable range")
+        } else {
+            Want::Ok(t, false, off as i32)
+        };
+        let g = Gen { text, want };
+        judge(c, &g);
+        c.op(&format!("r2.parse {}", hex(g.text.as_bytes())), &show_parse(&g.text));
+        c.count("range-edge:compared");
+    }
+
     // ---- 3. single-edit mutations of accepted strings ------------------------------------------------------
     for _ in 0..c.n(60000, 400000) {
         let base = if c.rng.chance(1, 4) { "Tue, 1 Jul 2003 10:52:37 +0200".to_string() } else { c.rng.pick(&pool).clone() };
